@@ -400,6 +400,11 @@ inductive Action where
   | wrp (p : Nat) (o : Op) (r : Rhs)               -- *p<p> op= rhs
   | read (name : Nat)                              -- v<name>
   | rdp (p : Nat)                                  -- *p<p>
+  | addrf (p : Nat) (name : Nat) (fid : Nat)       -- func f<fid>() *K { return &v<name> }  then  p<p> := f<fid>()
+                                                   --   (two evaluations; the address is taken one or more frames down)
+  | rng (kn vn : Option Nat) (kv : K) (last : Option (Nat × SV))
+                                                   -- for v<kn>, v<vn> = range <string|slice of kv> {}   (assignment form);
+                                                   --   last = index and element of the final iteration (none: empty)
   | box                                            -- harness: Comp.IntBindMax = Comp.IntBindNum
   | stat                                           -- harness: PrepareEnv(); report counters
   deriving Repr, Inhabited
@@ -417,6 +422,8 @@ inductive Out where
 /-- pointer variables live in the name space `p<n>`; in `binds` they are keyed `2n+1`, variables `2n` -/
 def vkey (n : Nat) : Nat := 2 * n
 def pkey (n : Nat) : Nat := 2 * n + 1
+/-- helper functions `f<fid>` share the name space of the variables (names >= 1000000 are reserved for them) -/
+def fkey (fid : Nat) : Nat := 2 * (fid + 1000000)
 
 def scalarBind (c : Comp) (name : Nat) : Option (Bind × K) :=
   match findBind c.binds (vkey name) with
@@ -520,6 +527,48 @@ def runRead (s : St) (l : Loc) (k : K) : St × Out :=
   | .panic => (s, .panic)
   | .stale => (s, .stale)
 
+/-- the state after `pre` and the NewBind of a pointer/function name -/
+def declared (cfg : Cfg) (s : St) (key : Nat) (k : K) : St :=
+  { pre cfg s with c := (newBind cfg (pre cfg s).c key (.ptr k) (pre cfg s).nvid).1, nvid := (pre cfg s).nvid + 1 }
+
+/-- one evaluation of `p := &v` (also the second evaluation of `addrf`: `p := f()` executes the same `&v`
+    one frame further down; `Var.Address` walks `env.Outer` to the frame that owns the slot) -/
+def stepAddr (cfg : Cfg) (s : St) (p name : Nat) : St × Out :=
+  match scalarBind (pre cfg s).c name with
+  | none => (pre cfg s, .cerr)
+  | some (tb, k) =>
+    if !(prep (declared cfg s (pkey p) k)).2 then
+      ((prep (declared cfg s (pkey p) k)).1, .ierr)
+    else runAddr (prep (declared cfg s (pkey p) k)).1
+                 tb (newBind cfg (pre cfg s).c (pkey p) (.ptr k) (pre cfg s).nvid).2 p k
+
+/-- the first evaluation of `addrf`: `func f<fid>() *K { return &v }` — a FuncBind: one slot of env.Vals,
+    which receives the function value (modelled as a place of its own) -/
+def stepFunc (cfg : Cfg) (s : St) (fid : Nat) (k : K) : St × Out :=
+  if !(prep (declared cfg s (fkey fid) k)).2 then
+    ((prep (declared cfg s (fkey fid) k)).1, .ierr)
+  else
+    match newBox (prep (declared cfg s (fkey fid) k)).1.e
+                 (newBind cfg (pre cfg s).c (fkey fid) (.ptr k) (pre cfg s).nvid).2.idx (.s "") with
+    | .ok e => ({ (prep (declared cfg s (fkey fid) k)).1 with e := e }, .ok)
+    | _ => ((prep (declared cfg s (fkey fid) k)).1, .panic)
+
+/-- kind of the key variable of a range statement: Go's `int` -/
+def rngVarOk (s : St) (k : K) : Option Nat → Bool
+  | none => true
+  | some n => match scalarBind s.c n with
+    | some (_, k') => k' == k
+    | none => false
+
+/-- `v<n> = val` inside the loop body of a range statement -/
+def rngAssign (s : St) (k : K) (v : SV) : Option Nat → St × Out
+  | none => (s, .ok)
+  | some n => match scalarBind s.c n with
+    | some (b, _) => match locOf s.e b with
+      | some l => runAssign s l k .set (.c v)
+      | none => (s, .panic)
+    | none => (s, .panic)
+
 /-- compile; prepareEnv; run — one `Interp.Eval` -/
 def step (cfg : Cfg) (s : St) (a : Action) : St × Out :=
   match a with
@@ -534,15 +583,23 @@ def step (cfg : Cfg) (s : St) (a : Action) : St × Out :=
     let s1 := { s0 with c := nb.1, nvid := s0.nvid + 1 }
     let r := prep s1
     if !r.2 then (r.1, .ierr) else runDecl r.1 nb.2 k init
-  | .addr p name =>
-    let s0 := pre cfg s
-    match scalarBind s0.c name with
-    | none => (s0, .cerr)
-    | some (tb, k) =>
-      let nb := newBind cfg s0.c (pkey p) (.ptr k) s0.nvid
-      let s1 := { s0 with c := nb.1, nvid := s0.nvid + 1 }
-      let r := prep s1
-      if !r.2 then (r.1, .ierr) else runAddr r.1 tb nb.2 p k
+  | .addr p name => stepAddr cfg s p name
+  | .addrf p name fid =>
+    match scalarBind (pre cfg s).c name with
+    | none => (pre cfg s, .cerr)
+    | some (_, k) =>
+      match (stepFunc cfg s fid k).2 with
+      | .ok => stepAddr cfg (stepFunc cfg s fid k).1 p name
+      | o => ((stepFunc cfg s fid k).1, o)
+  | .rng kn vn kv last =>
+    if !rngVarOk (pre cfg s) .int kn || !rngVarOk (pre cfg s) kv vn then (pre cfg s, .cerr) else
+    if !(prep (pre cfg s)).2 then ((prep (pre cfg s)).1, .ierr) else
+    match last with
+    | none => ((prep (pre cfg s)).1, .ok)
+    | some (i, v) =>
+      match (rngAssign (prep (pre cfg s)).1 .int (.n i) kn).2 with
+      | .ok => rngAssign (rngAssign (prep (pre cfg s)).1 .int (.n i) kn).1 kv v vn
+      | o => ((rngAssign (prep (pre cfg s)).1 .int (.n i) kn).1, o)
   | .asg name o r =>
     let s0 := pre cfg s
     match scalarBind s0.c name with
@@ -643,6 +700,26 @@ def Seq.step (q : Seq) (a : Action) : Seq × Out :=
     match q.names.lookup name with
     | none => (q, .cerr)
     | some (id, k) => ({ q with ptrs := (p, (id, k)) :: q.ptrs, nvid := q.nvid + 1 }, .ok)
+  | .addrf p name _ =>
+    match q.names.lookup name with
+    | none => (q, .cerr)
+    | some (id, k) => ({ q with ptrs := (p, (id, k)) :: q.ptrs, nvid := q.nvid + 2 }, .ok)
+  | .rng kn vn kv last =>
+    let okVar (k : K) : Option Nat → Bool
+      | none => true
+      | some n => match q.names.lookup n with
+        | some (_, k') => k' == k
+        | none => false
+    if !okVar .int kn || !okVar kv vn then (q, .cerr) else
+    match last with
+    | none => (q, .ok)
+    | some (i, v) =>
+      let set (q : Seq) (k : K) (x : SV) : Option Nat → Seq
+        | none => q
+        | some n => match q.names.lookup n with
+          | some (id, _) => { q with vars := (id, canon k x) :: q.vars }
+          | none => q
+      (set (set q .int (.n i) kn) kv v vn, .ok)
   | .asg name o r =>
     match q.names.lookup name with
     | none => (q, .cerr)
